@@ -558,6 +558,45 @@ func rtBytes(r *Rng, n int) string {
 	return string(b)
 }
 
+// rtShapedBytes: file content with structure a copy loop may treat specially — all zero, a zero tail, a zero
+// head, or zero and random 32 KiB blocks mixed (holes) — besides plain random bytes.
+func rtShapedBytes(r *Rng, n int) (string, string) {
+	b := []byte(rtBytes(r, n))
+	shape := "random"
+	switch r.intn(8) {
+	case 0:
+		shape = "zeros"
+		for i := range b {
+			b[i] = 0
+		}
+	case 1:
+		shape = "zero-tail"
+		for i := n / 2; i < n; i++ {
+			b[i] = 0
+		}
+		if n > 32768 {
+			for i := n - 32768; i < n; i++ {
+				b[i] = 0
+			}
+		}
+	case 2:
+		shape = "zero-head"
+		for i := 0; i < n/2; i++ {
+			b[i] = 0
+		}
+	case 3:
+		shape = "holes"
+		for blk := 0; blk*32768 < n; blk++ {
+			if r.chance(1, 2) {
+				for i := blk * 32768; i < (blk+1)*32768 && i < n; i++ {
+					b[i] = 0
+				}
+			}
+		}
+	}
+	return string(b), shape
+}
+
 func rtPickInt(r *Rng, xs []int) int       { return xs[r.intn(len(xs))] }
 func rtPickU32(r *Rng, xs []uint32) uint32 { return xs[r.intn(len(xs))] }
 func rtPickI64(r *Rng, xs []int64) int64   { return xs[r.intn(len(xs))] }
